@@ -11,3 +11,10 @@ pub fn hook_version() -> u32 {
 }
 
 pub use crate::inline_substitutions::InlineFendResultComponent;
+
+pub mod date;
+pub mod dist;
+pub mod lang;
+pub mod num;
+pub mod ser;
+pub mod units;
